@@ -225,8 +225,18 @@ pub fn run_calls(fsts: &[&[u8]], l: usize) -> Result<(u64, [i64; 2]), String> {
             if extra > bound {
                 return Err(format!("{}: peak extra heap {} bytes (bound {})", what, extra, bound));
             }
-            if alloc::live() != x0 {
-                return Err(format!("{}: {} bytes still live after the call", what, alloc::live() - x0));
+            // what stays live after the call (a bounded pool or scratch buffer kept for
+            // reuse would be within the property) must be bounded like the peak and must
+            // not grow when the same call is repeated
+            let x1 = alloc::live();
+            if x1 - x0 > bound {
+                return Err(format!("{}: {} bytes still live after the call (bound {})", what, x1 - x0, bound));
+            }
+            for rep in 0..3 {
+                acc += f();
+                if alloc::live() != x1 {
+                    return Err(format!("{}: the live heap grows by {} bytes with repetition {} of the same call ({} bytes were live after the first one)", what, alloc::live() - x1, rep + 2, x1 - x0));
+                }
             }
             peaks[slot] = peaks[slot].max(extra);
             Ok(())
@@ -267,6 +277,52 @@ pub fn run_calls(fsts: &[&[u8]], l: usize) -> Result<(u64, [i64; 2]), String> {
             }
             c
         })?;
+        // bounded scans and searches, run to the end and abandoned
+        let (lo, hi): (&[u8], &[u8]) = if fsts[0].len() > 0 && a.root().len() > 40 { (&[0x01, 0x25], &[0x03, 0x30, 0x31]) } else { (b"00000400", b"00002000") };
+        measure("range().ge().le()", 0, bound, &mut || {
+            let mut s = a.range().ge(lo).le(hi).into_stream();
+            let mut c = 0u64;
+            while s.next().is_some() { c += 1; }
+            c
+        })?;
+        measure("range().gt().lt() dropped after 10 items", 0, bound, &mut || {
+            let mut s = a.range().gt(lo).lt(hi).into_stream();
+            let mut c = 0u64;
+            while c < 10 && s.next().is_some() { c += 1; }
+            c
+        })?;
+        measure("range().le() never advanced", 0, bound, &mut || {
+            let s = a.range().le(hi).into_stream();
+            drop(s);
+            1
+        })?;
+        measure("search(AlwaysMatch).ge().lt()", 0, bound, &mut || {
+            let mut s = a.search(fst::automaton::AlwaysMatch).ge(lo).lt(hi).into_stream();
+            let mut c = 0u64;
+            while s.next().is_some() { c += 1; }
+            c
+        })?;
+        measure("search_with_state(Subsequence).le()", 0, bound, &mut || {
+            let aut = fst::automaton::Subsequence::new("0");
+            let mut s = a.search_with_state(&aut).le(hi).into_stream();
+            let mut c = 0u64;
+            while c < 500 && s.next().is_some() { c += 1; }
+            c
+        })?;
+        measure("Map::range().le() / Set::range().lt()", 0, bound, &mut || {
+            let mut s = ma.range().le(hi).into_stream();
+            let mut c = 0u64;
+            while c < 100 && s.next().is_some() { c += 1; }
+            let mut t = sa.range().lt(hi).into_stream();
+            while c < 200 && t.next().is_some() { c += 1; }
+            c
+        })?;
+        measure("intersection of two bounded ranges", 0, bound, &mut || {
+            let mut u = raw::OpBuilder::new().add(a.range().le(hi)).add(b.range().ge(lo)).intersection();
+            let mut c = 0u64;
+            while c < 1000 && u.next().is_some() { c += 1; }
+            c
+        })?;
         measure("two streams advanced alternately", 0, bound, &mut || {
             let (mut s1, mut s2) = (a.stream(), a.range().ge(b"0").into_stream());
             let mut c = 0u64;
@@ -280,7 +336,7 @@ pub fn run_calls(fsts: &[&[u8]], l: usize) -> Result<(u64, [i64; 2]), String> {
             }
         })?;
         std::hint::black_box(acc);
-        Ok((13, peaks))
+        Ok((20 * 4, peaks))
     })
     .and_then(|x| x)
 }
@@ -380,7 +436,7 @@ pub fn replay(case: &Value) -> Result<String, String> {
 pub fn plan(tier: Tier) -> Plan {
     let mut p = Plan::new("C14", "exploration");
     let thorough = tier.thorough();
-    p.rule = "counting allocator, per-thread. (1) exhaustive in small scopes: for every FST of all subsets of U_ab3 and U_raw2 (values 3i+1), of the fan-out families and of the 256-byte label family: (a) Fst::new/Map::new/Set::new over borrowed bytes and every get/contains_key/contains of the probe closure perform ZERO allocations (allocation count), and so does get_key_into for every value found, its neighbours and 0..7 into a caller buffer of sufficient capacity; (b) stream(), every range (all kind pairs x bound keys of length <= 2; large sets <= 1) and three automaton searches: live heap after EVERY next() <= heap before construction + 4096 + 256*(L+2) + 4*(L+16); (c) union/intersection/difference/symmetric_difference over k = 2..4 FST-backed streams (the FST, its even- and odd-indexed halves, itself): live heap after every next() <= before + 256 + k*(stream bound + 2*max(L,64) + 512). (2) finite ladder (not exhaustive): FSTs of N = 1e4, 1e5 (thorough 1e6) 8-byte keys: full stream/range/search, k = 2..8 way operations over partially overlapping FSTs, and operations over 2-4 identical and over disjoint FSTs (long runs in which nothing is emitted): max extra heap identical (+-256 B) for all N; the same on a wide-node ladder (3-byte keys: root of up to 256 transitions, N/40 distinct non-root nodes of 64 and 40 transitions; N = 10240, 102400, 655360 - the last one a dense root in a file > 64 KiB), with zero-allocation open/lookups on each; on both ladders also is_subset / is_superset / is_disjoint (raw and Set, also against a range stream) and the Debug formatting of Set and Map into a non-allocating sink, traversals abandoned after 1000 items and two streams of one FST advanced alternately: peak extra heap bounded and identical for all N, nothing live afterwards. non-trivial = traversals yielding >= 2 items".into();
+    p.rule = "counting allocator, per-thread. (1) exhaustive in small scopes: for every FST of all subsets of U_ab3 and U_raw2 (values 3i+1), of the fan-out families and of the 256-byte label family: (a) Fst::new/Map::new/Set::new over borrowed bytes and every get/contains_key/contains of the probe closure perform ZERO allocations (allocation count), and so does get_key_into for every value found, its neighbours and 0..7 into a caller buffer of sufficient capacity; (b) stream(), every range (all kind pairs x bound keys of length <= 2; large sets <= 1) and three automaton searches: live heap after EVERY next() <= heap before construction + 4096 + 256*(L+2) + 4*(L+16); (c) union/intersection/difference/symmetric_difference over k = 2..4 FST-backed streams (the FST, its even- and odd-indexed halves, itself): live heap after every next() <= before + 256 + k*(stream bound + 2*max(L,64) + 512). (2) finite ladder (not exhaustive): FSTs of N = 1e4, 1e5 (thorough 1e6) 8-byte keys: full stream/range/search, k = 2..8 way operations over partially overlapping FSTs, and operations over 2-4 identical and over disjoint FSTs (long runs in which nothing is emitted): max extra heap identical (+-256 B) for all N; the same on a wide-node ladder (3-byte keys: root of up to 256 transitions, N/40 distinct non-root nodes of 64 and 40 transitions; N = 10240, 102400, 655360 - the last one a dense root in a file > 64 KiB), with zero-allocation open/lookups on each; on both ladders also is_subset / is_superset / is_disjoint (raw and Set, also against a range stream) and the Debug formatting of Set and Map into a non-allocating sink, traversals abandoned after 1000 items and two streams of one FST advanced alternately: bounded range scans and searches (run to the end, abandoned, never advanced); each call is repeated four times: peak extra heap bounded and identical for all N, what stays live after a call bounded likewise and NOT growing with repetition (a leak per traversal is growth with use). non-trivial = traversals yielding >= 2 items".into();
     p.assumptions = vec![
         "'for all N' beyond the ladder is not decided; transient per-item allocations that are freed again do not violate the property as stated".into(),
         "memory of user-supplied streams is outside the property".into(),
